@@ -173,14 +173,33 @@ def build(text, cpu_limit=None, name="script.flo", confirm=True):
     """Build `text` with the real Builder.  `cpu_limit` (seconds of user-mode CPU time of this
     process, ITIMER_VIRTUAL: independent of machine load and of page-fault / system time) bounds
     the call: on expiry the build is interrupted.  An interrupted build is repeated once from
-    scratch and only reported as `.hung` when the repetition is interrupted too (a garbage
-    collection of the large CrossHair heap can eat a good part of a short limit once)."""
+    scratch under four times the limit and only reported as `.hung` when the repetition is
+    interrupted too (CPU-time accounting is tick based and the first build of a freshly forked
+    worker on a loaded machine can be slow once)."""
+    _warm_up()
     out = _build(text, cpu_limit, name)
     if out.hung and confirm:
-        again = _build(text, cpu_limit, name)
+        again = _build(text, cpu_limit * 4, name)     # second opinion under a four times longer limit
         if not again.hung:
             return again
     return out
+
+
+_WARM = [None]
+
+
+def _warm_up():
+    """once per process: freeze the heap inherited from the (forked) parent so that the cyclic garbage
+    collector neither scans it nor copy-on-write-faults it during timed builds, and run one untimed
+    build so that lazily created state (regex caches, module attributes) exists"""
+    pid = os.getpid()
+    if _WARM[0] == pid:
+        return
+    _WARM[0] = pid
+    import gc
+    gc.collect()
+    gc.freeze()
+    _build("house warm\nframer w be active first a\n  frame a\n    go next\n  frame b\n", None, "warm.flo")
 
 
 def _build(text, cpu_limit, name):
